@@ -275,7 +275,8 @@ pub fn run(a: &Args) {
     let mut lines = 0;
     let mut cases = 0usize;
     for ch in 0..chunks {
-        let c = Conc::new(&mut r, true);
+        // X/Y are only carried by the conversions: a NaN id exists in the X/Y table as well
+        let c = Conc::new_with(&mut r, true, None, true);
         let mut meta = c.meta();
         meta["prop"] = json!(prop);
         meta["seed"] = json!(seed);
@@ -287,6 +288,12 @@ pub fn run(a: &Args) {
             for k in 0..n / 13 + 1 {
                 let g = if k % 3 == 0 { GenCfg::medium() } else { GenCfg::small() };
                 let mut s = gen_shape_with(&mut r, t, &g, true);
+                if family(t) == "polygon" || t == 31 {
+                    // rings without any vertex are outside C20 ("non-empty components"): drop them
+                    let keep: Vec<usize> = (0..s.parts.len()).filter(|i| !s.parts[*i].is_empty()).collect();
+                    s.parts = keep.iter().map(|i| s.parts[*i].clone()).collect();
+                    s.kinds = keep.iter().map(|i| s.kinds[*i]).collect();
+                }
                 if family(t) == "polygon" && k % 4 != 3 {
                     s.kinds[0] = 0; // mostly outer-first
                 }
@@ -294,6 +301,18 @@ pub fn run(a: &Args) {
                     // ring-only multipatches (the convertible ones)
                     for kd in s.kinds.iter_mut() {
                         *kd = 2 + (*kd % 4);
+                    }
+                }
+                if k % 5 == 1 && family(t) != "polygon" && t != 31 {
+                    // a vertex whose X and/or Y is NaN (not for rings: geo-types closes a ring whose ends are NaN once more)
+                    let pi = r.below(s.parts.len());
+                    if !s.parts[pi].is_empty() {
+                        let qi = r.below(s.parts[pi].len());
+                        match r.below(3) {
+                            0 => { s.parts[pi][qi][0] = NANV; s.parts[pi][qi][1] = NANV; }
+                            1 => s.parts[pi][qi][0] = NANV,
+                            _ => s.parts[pi][qi][1] = NANV,
+                        }
                     }
                 }
                 shape_to_geo(&mut tr, &c, &s);
